@@ -171,7 +171,13 @@ impl Exp {
                     },
                     BinOp::Mul => match (lhs, rhs) {
                         (Exp::Number(lhs), Exp::Number(rhs)) => Exp::Number(lhs * rhs),
-                        (Exp::Number(0.0), _) | (_, Exp::Number(0.0)) => Exp::Number(0.0),
+                        // 0 * e is 0 only if e is defined: keep a division by zero or by a
+                        // non-constant visible so that it is still diagnosed
+                        (Exp::Number(0.0), other) | (other, Exp::Number(0.0))
+                            if !other.has_unsafe_division() =>
+                        {
+                            Exp::Number(0.0)
+                        }
                         (Exp::Number(1.0), rhs) => rhs,
                         (lhs, Exp::Number(1.0)) => lhs,
                         (lhs, rhs) => Exp::BinOp(BinOp::Mul, lhs.to_box(), rhs.to_box()),
@@ -308,6 +314,26 @@ impl Exp {
                 }
             }
             exp => exp.clone(),
+        }
+    }
+
+    /// Whether the expression contains a division whose divisor is not a non-zero
+    /// constant (a division by zero or by a non-constant expression).
+    fn has_unsafe_division(&self) -> bool {
+        match self {
+            Exp::Number(_) | Exp::Variable(_) => false,
+            Exp::Abs(exp) | Exp::Not(exp) | Exp::UnOp(_, exp) => exp.has_unsafe_division(),
+            Exp::Min(exps) | Exp::Max(exps) | Exp::And(exps) | Exp::Or(exps) => {
+                exps.iter().any(|exp| exp.has_unsafe_division())
+            }
+            Exp::Xor(lhs, rhs) | Exp::Implies(lhs, rhs) | Exp::Iff(lhs, rhs) => {
+                lhs.has_unsafe_division() || rhs.has_unsafe_division()
+            }
+            Exp::BinOp(op, lhs, rhs) => {
+                let unsafe_divisor = matches!(op, BinOp::Div)
+                    && !matches!(&**rhs, Exp::Number(divisor) if *divisor != 0.0);
+                unsafe_divisor || lhs.has_unsafe_division() || rhs.has_unsafe_division()
+            }
         }
     }
 
